@@ -129,7 +129,8 @@ def vmx_expected_disks(attr: dict) -> list[str]:
     return sorted(res)
 
 
-IDS = ["file1", "vmdisk1", "ovfdisk", "f", "v:1", "o-v_f.2", "disk", "file", "ffile", "d1", "d2", "iso1", ":x", "vo"]
+IDS = ["file1", "vmdisk1", "ovfdisk", "f", "v:1", "o-v_f.2", "disk", "file", "ffile", "d1", "d2", "iso1", ":x", "vo",
+       "vmdisk#2", "iso?1", "a%20b", "x;y"]  # ids are opaque strings, not URI components (no "/": it separates the path steps)
 
 
 @st.composite
